@@ -1460,3 +1460,62 @@ package gpbft
 //@   property C14 C07
 //@   modifies auto
 //@   ensures[the_message_carries_the_prepared_payload_and_the_given_signatures] result != nil && result.Sender == st.ParticipantID && result.Vote == st.Payload && result.Signature == payloadSignature && result.Ticket == vrf && result.Justification == st.Justification
+
+// ---- constructors: what an instance starts from (C07 / C02 / C15) ----
+// A fresh instance is for the given id at round 0 in the INITIAL step, proposes its input, holds bottom as value, has
+// only the base of its input as candidate, and tallies against the given power table with empty tallies.
+//@ func newInstance
+//@   property C07 C02 C15
+//@   modifies auto
+//@   maypanic
+//@   opaque newQuorumState, newRoundState
+//@   at return 1
+//@     before[an_instance_is_never_started_on_a_bottom_input] arg(1) != nil && arg(0) == nil && isBottom(input)
+//@   at return 2
+//@     before[a_fresh_instance_starts_from_its_input_at_round_zero] arg(1) == nil && arg(0) != nil && arg(0).input == input && arg(0).proposal == input && arg(0).current.Instant.ID == instanceID && arg(0).current.Instant.Round == 0
+//@          && arg(0).current.Instant.Phase == INITIAL_PHASE && arg(0).current.Input == input && arg(0).supplementalData == data && arg(0).powerTable == powerTable && arg(0).aggregateVerifier == aggregateVerifier
+//@          && arg(0).participant == participant && arg(0).value != nil && len(arg(0).value.TipSets) == 0 && !isBottom(input)
+//@     before[its_only_candidate_is_the_base_of_its_input] has(arg(0).candidates, res(Key, 1)) && argOf(Key, 1, 0) == res(BaseChain, 1) && argOf(BaseChain, 1, 0) == input
+//@          && forall(ECChainKey(k), has(arg(0).candidates, k) ==> k == res(Key, 1), trigger(has(arg(0).candidates, k)))
+//@     before[all_tallies_count_against_the_instances_power_table] arg(0).quality == res(newQuorumState, 1) && argOf(newQuorumState, 1, 0) == powerTable && arg(0).decision == res(newQuorumState, 2) && argOf(newQuorumState, 2, 0) == powerTable
+//@          && has(arg(0).rounds, 0) && arg(0).rounds[0] == res(newRoundState, 1) && argOf(newRoundState, 1, 1) == powerTable && argOf(newRoundState, 1, 0) == 0
+
+// A fresh tally is empty and counts against the given table.
+//@ func newQuorumState
+//@   property C07 C01 C02
+//@   modifies auto
+//@   maypanic
+//@   ensures[a_fresh_tally_is_empty_and_counts_against_the_given_table] result != nil && result.powerTable == powerTable && result.sendersTotalPower == 0
+//@        && forall(ActorID(a), !has(result.senders, a), trigger(has(result.senders, a))) && forall(ECChainKey(k), !has(result.chainSupport, k), trigger(has(result.chainSupport, k)))
+//@        && forall(ECChainKey(k), !has(result.receivedJustification, k), trigger(has(result.receivedJustification, k)))
+
+//@ func newRoundState
+//@   property C07 C01 C02
+//@   modifies auto
+//@   maypanic
+//@   opaque newQuorumState, newConvergeState
+//@   at return 0
+//@     before[a_round_has_its_own_prepare_and_commit_tallies_over_the_table] arg(0).prepared == res(newQuorumState, 1) && argOf(newQuorumState, 1, 0) == powerTable && arg(0).committed == res(newQuorumState, 2) && argOf(newQuorumState, 2, 0) == powerTable
+//@          && arg(0).converged == res(newConvergeState, 1)
+
+// ---- the committee cache (C05 / C15): a committee is cached under its own instance, a hit returns what is cached for
+// ---- that instance, a miss asks the delegate for that very instance; eviction removes only older instances.
+//@ func (*cachedCommitteeProvider).GetCommittee
+//@   property C05 C15 C07
+//@   modifies auto
+//@   maypanic
+//@   at return 1
+//@     before[a_hit_is_the_committee_cached_for_that_instance] arg(1) == nil && found && has(c.committees, instance) && arg(0) == c.committees[instance]
+//@   at GetCommittee 1
+//@     before[a_miss_asks_the_delegate_for_that_instance] recv() == c.delegate && arg(1) == instance && !has(c.committees, instance)
+//@   at return 4
+//@     before[the_delegates_committee_is_cached_under_that_instance_and_returned] arg(1) == nil && arg(0) == res(GetCommittee, 1, 0) && arg(0) != nil && res(GetCommittee, 1, 1) == nil && has(c.committees, instance) && c.committees[instance] == arg(0)
+//@   at return 2
+//@     before[a_failing_delegate_means_no_committee] arg(0) == nil && arg(1) != nil && res(GetCommittee, 1, 1) != nil
+
+//@ func (*cachedCommitteeProvider).EvictCommitteesBefore
+//@   property C05 C15 C07
+//@   modifies auto
+//@   maypanic
+//@   at loopback 1
+//@     before[only_committees_of_older_instances_are_dropped] forall(uint64(k), k >= instance ==> has(c.committees, k) == prev(has(c.committees, k)) && c.committees[k] == prev(c.committees[k]), trigger(has(c.committees, k)))
